@@ -23,7 +23,9 @@ const c15Resend = 200 * time.Millisecond
 
 func TestVerifC15(t *testing.T) {
 	synctest.Test(t, func(t *testing.T) {
-		filters := []string{"t", "+", "#", "x"} // "x" does not match topic t
+		// topic t/u; "t" (a level-prefix of the other filters) and "x" do not match it
+		filters := []string{"t/u", "t/+", "#", "t", "x"}
+		matches := func(f string) bool { return f != "x" && f != "t" }
 		var jobs []mc.Job
 
 		// ---- job 1: HTTP publish reaches every eligible subscriber whatever the visiting order ----
@@ -38,6 +40,7 @@ func TestVerifC15(t *testing.T) {
 					qos    byte
 				}
 				var subs []sub
+				var c0filters []string
 				for i := 0; i < n; i++ {
 					f := filters[c.Choose(len(filters), fmt.Sprintf("filter%d", i))]
 					q := byte(c.Choose(2, fmt.Sprintf("subqos%d", i)))
@@ -49,6 +52,9 @@ func TestVerifC15(t *testing.T) {
 					if !cl.subscribe(f, q) {
 						c.Failf("subscribe-not-acked", "client c%d subscribe %s", i, f)
 					}
+					if i == 0 {
+						c0filters = []string{f}
+					}
 					// a client may hold a second, overlapping subscription with the other QoS: it is eligible through
 					// whichever of its matching subscriptions has QoS >= q
 					if i == 0 && n == 2 {
@@ -58,7 +64,8 @@ func TestVerifC15(t *testing.T) {
 								c.Failf("subscribe-not-acked", "client c%d subscribe %s", i, f2)
 							}
 							c.Note("c%d also subscribes %q qos%d", i, f2, q2)
-							if f2 != "x" && (f == "x" || q2 > q) {
+							c0filters = append(c0filters, f2)
+							if matches(f2) && (!matches(f) || q2 > q) {
 								f, q = f2, q2 // the subscription that makes it eligible for more
 							}
 						}
@@ -67,9 +74,25 @@ func TestVerifC15(t *testing.T) {
 					subs = append(subs, sub{cl, f, q})
 					c.Note("c%d subscribes %q qos%d", i, f, q)
 				}
+				// the first client may leave before the message is published (UNSUBSCRIBE of all its filters, or its
+				// connection drops): what the others get must not depend on it
+				switch c.Choose(3, "c0-leaves") {
+				case 1:
+					p := packets.NewControlPacket(packets.Unsubscribe).(*packets.UnsubscribePacket)
+					p.MessageID, p.Topics = 99, c0filters
+					subs[0].cl.send(p)
+					synctest.Wait()
+					subs[0].cl.take()
+					subs[0].filter = "x"
+					c.Note("c0 unsubscribes %v", c0filters)
+				case 2:
+					subs[0].cl.drop()
+					subs[0].filter = "x"
+					c.Note("c0's connection drops")
+				}
 				mq := c.Choose(2, "msgqos")
 				vrt.SetOrderChooser(c)
-				if code := vb.httpPublish("t", mq, "hello"); code != 200 {
+				if code := vb.httpPublish("t/u", mq, "hello"); code != 200 {
 					c.Failf("http-publish-status", "HTTP publish answered %d", code)
 				}
 				vrt.SetOrderChooser(nil)
@@ -77,17 +100,17 @@ func TestVerifC15(t *testing.T) {
 					pubs := publishesOf(s.cl.take())
 					got := len(pubs)
 					for _, p := range pubs {
-						if p.TopicName != "t" || string(p.Payload) != "hello" || int(p.Qos) != mq {
-							c.Failf("delivered-message-altered", "message on t at QoS %d payload hello: client c%d received topic %q payload %q QoS %d packet id %d", mq, i, p.TopicName, p.Payload, p.Qos, p.MessageID)
+						if p.TopicName != "t/u" || string(p.Payload) != "hello" || int(p.Qos) != mq {
+							c.Failf("delivered-message-altered", "message on t/u at QoS %d payload hello: client c%d received topic %q payload %q QoS %d packet id %d", mq, i, p.TopicName, p.Payload, p.Qos, p.MessageID)
 						}
 					}
-					eligible := s.filter != "x" && int(s.qos) >= mq
+					eligible := matches(s.filter) && int(s.qos) >= mq
 					c.Note("c%d eligible=%v received=%d", i, eligible, got)
 					switch {
 					case eligible && got == 0:
 						lower := false
 						for _, o := range subs {
-							if o.filter != "x" && int(o.qos) < mq {
+							if matches(o.filter) && int(o.qos) < mq {
 								lower = true
 							}
 						}
@@ -95,8 +118,8 @@ func TestVerifC15(t *testing.T) {
 						if lower {
 							key += ":another-subscriber-has-lower-qos"
 						}
-						c.Failf(key, "message on t at QoS %d: client c%d (filter %q, QoS %d) is eligible but received nothing; population %v", mq, i, s.filter, s.qos, descSubs(n, subs2desc(subs)))
-					case !eligible && got > 0 && s.filter == "x":
+						c.Failf(key, "message on t/u at QoS %d: client c%d (filter %q, QoS %d) is eligible but received nothing; population %v", mq, i, s.filter, s.qos, descSubs(n, subs2desc(subs)))
+					case !eligible && got > 0 && !matches(s.filter):
 						c.Failf("non-matching-subscriber-received", "client c%d (filter %q) received the message", i, s.filter)
 					}
 				}
